@@ -89,7 +89,8 @@ func vhFinitePre(n int, auto bool) (*FiniteReplayer, []vhEntry, uint64) {
 	}
 	var first uint64
 	if auto {
-		first = []uint64{0, 7, 9, 98}[verifChoose("first", 4)]
+		firsts := []uint64{0, 7, 9, 98, 253, 254, 255, 256, 998, 65534, 4294967294, 9999999999}
+		first = firsts[verifChoose("first", verifParam("FIRSTS", 4))]
 		cur := first + uint64(count)
 		r.currentID = &cur
 	}
